@@ -4,6 +4,7 @@ import (
 	"fmt"
 	"go/token"
 	"go/types"
+	"os"
 	"sort"
 	"strings"
 
@@ -399,6 +400,18 @@ func runC14(c *eng.Ctx) {
 	// ---- R14.5 optional sub-messages of propagated requests
 	c.Rule("R14.5", "K9")
 	runNilSubMessages(c)
+
+	// ---- R14.7 what arrives over NATS cannot reach a panic
+	c.Rule("R14.7", "K3")
+	rulePanicsOnMessagePath(c)
+
+	// ---- R14.6 the malformed-message-set error reaches the handler's identity test unwrapped
+	roots := []string{"server.(*partition).handleReplicationResponse"}
+	if os.Getenv("LBCHECK_SENTINEL_ALL") != "" {
+		roots = nil
+	}
+	n := ruleSentinelIdentity(c, "R14.6", roots, "the handler takes its `any other error` branch, which panics: a truncated replication response kills the follower")
+	c.Check(n >= 1, "handleReplicationResponse tells a malformed message set apart", "", "identity comparison with commitlog.ErrInvalidMessageSet found", "no comparison with commitlog.ErrInvalidMessageSet in handleReplicationResponse: every append error is fatal there")
 }
 
 func isParamData(v ssa.Value) bool {
@@ -547,6 +560,7 @@ func runNilSubMessages(c *eng.Ctx) {
 		return
 	}
 	n := 0
+	nNested := 0
 	for _, fn := range p.Funcs {
 		if fn.Pkg == nil || ir.Short(fn.Pkg.Pkg.Path()) != "server" || fn.Parent() != nil {
 			continue
@@ -588,7 +602,7 @@ func runNilSubMessages(c *eng.Ctx) {
 					c.OK("sub-message "+fname+" in "+ir.FuncKey(fn), c.Pos(call), "nil-checked in the handler before use")
 					continue
 				}
-				if why := validatedByCaller(c, fn, fname); why != "" {
+				if why := validatedByCaller(c, fn, fname, ""); why != "" {
 					c.OK("sub-message "+fname+" in "+ir.FuncKey(fn), c.Pos(call), why)
 					continue
 				}
@@ -608,9 +622,145 @@ func runNilSubMessages(c *eng.Ctx) {
 					"callee "+ir.FuncKey(callee)+" checks the pointer for nil before reading its fields",
 					"a propagated request with op set but "+fname+" absent reaches "+bad+" — nil pointer dereference from a NATS payload")
 			}
+			// messages nested inside the sub-message are optional on the wire too
+			for _, r := range *u.Referrers() {
+				call, ok := r.(*ssa.Call)
+				if !ok {
+					continue
+				}
+				callee := call.Call.StaticCallee()
+				if callee == nil || !p.IsModuleFunc(callee) {
+					continue
+				}
+				for i, a := range call.Call.Args {
+					if a != u || i >= len(callee.Params) {
+						continue
+					}
+					nested := map[string]string{}
+					nestedDerefs(c, callee, callee.Params[i], 0, nested)
+					names := make([]string, 0, len(nested))
+					for k := range nested {
+						names = append(names, k)
+					}
+					sort.Strings(names)
+					for _, nf := range names {
+						nNested++
+						construct := "nested message " + fname + "." + nf + " reached from " + ir.FuncKey(fn)
+						if nested[nf] == "" {
+							c.OK(construct, c.Pos(call), "nil-checked where it is read")
+							continue
+						}
+						if why := validatedByCaller(c, fn, fname, nf); why != "" {
+							c.OK(construct, c.Pos(call), why)
+							continue
+						}
+						c.Violate(construct, c.Pos(call), "a propagated request whose "+fname+" is present but carries no "+nf+" reaches "+nested[nf]+" — nil pointer dereference from a NATS payload")
+					}
+				}
+			}
 		})
 	}
 	c.Floor(11)
+	c.Note("R14.5: %d nested optional message(s) read below the propagated-request handlers", nNested)
+}
+
+// nestedDerefs collects, for the message pointer prm of fn, the pointer-to-message fields read from it (here and in the module
+// functions prm is handed to, three levels) and for each the first place where the loaded pointer is dereferenced without a
+// dominating nil test ("" when every dereference is guarded).
+func nestedDerefs(c *eng.Ctx, fn *ssa.Function, prm *ssa.Parameter, depth int, out map[string]string) {
+	if depth > 3 || prm.Referrers() == nil {
+		return
+	}
+	var uses []ssa.Instruction
+	for _, r := range *prm.Referrers() {
+		if st, ok := r.(*ssa.Store); ok && st.Val == prm {
+			if a, ok := st.Addr.(*ssa.Alloc); ok {
+				for _, rr := range *a.Referrers() {
+					if ld, ok := rr.(*ssa.UnOp); ok && ld.Referrers() != nil {
+						uses = append(uses, *ld.Referrers()...)
+					}
+				}
+				continue
+			}
+		}
+		uses = append(uses, r)
+	}
+	for _, r := range uses {
+		switch x := r.(type) {
+		case *ssa.FieldAddr:
+			pt, ok := x.Type().(*types.Pointer) // *(*T)
+			if !ok {
+				continue
+			}
+			inner, ok := pt.Elem().(*types.Pointer)
+			if !ok {
+				continue
+			}
+			if _, ok := inner.Elem().Underlying().(*types.Struct); !ok {
+				continue
+			}
+			st := x.X.Type().Underlying().(*types.Pointer).Elem().Underlying().(*types.Struct)
+			name := st.Field(x.Field).Name()
+			if strings.HasPrefix(name, "XXX_") || x.Referrers() == nil {
+				continue
+			}
+			sameField := func(v ssa.Value) bool {
+				u, ok := v.(*ssa.UnOp)
+				if !ok || u.Op != token.MUL {
+					return false
+				}
+				fa, ok := u.X.(*ssa.FieldAddr)
+				return ok && fa.Field == x.Field && eng.Strip(fa.X) == eng.Strip(x.X)
+			}
+			guard := eng.CmpEdges(fn, sameField, eng.NilConst, eng.NE)
+			for _, lr := range *x.Referrers() {
+				ld, ok := lr.(*ssa.UnOp)
+				if !ok || ld.Op != token.MUL || ld.Referrers() == nil {
+					continue
+				}
+				if _, seen := out[name]; !seen {
+					out[name] = ""
+				}
+				for _, use := range *ld.Referrers() {
+					guarded := false
+					if len(guard) > 0 {
+						guarded, _ = eng.GuardedBy(fn, use, guard)
+					}
+					if guarded {
+						continue
+					}
+					switch y := use.(type) {
+					case *ssa.FieldAddr:
+						if out[name] == "" {
+							out[name] = fmt.Sprintf("%s (field read at %s)", ir.FuncKey(fn), c.Pos(y))
+						}
+					case *ssa.Call:
+						callee := y.Call.StaticCallee()
+						if callee == nil || !c.P.IsModuleFunc(callee) {
+							continue
+						}
+						for i, a := range y.Call.Args {
+							if a == ssa.Value(ld) && i < len(callee.Params) {
+								if s := derefUnguarded(c, callee, callee.Params[i], depth+1); s != "" && out[name] == "" {
+									out[name] = s
+								}
+							}
+						}
+					}
+				}
+			}
+		case *ssa.Call:
+			callee := x.Call.StaticCallee()
+			if callee == nil || !c.P.IsModuleFunc(callee) || len(callee.Blocks) == 0 {
+				continue
+			}
+			for i, a := range x.Call.Args {
+				if eng.Strip(a) == ssa.Value(prm) && i < len(callee.Params) {
+					nestedDerefs(c, callee, callee.Params[i], depth+1, out)
+				}
+			}
+		}
+	}
 }
 
 // derefUnguarded returns a description of the first use of pointer parameter prm in fn that dereferences it (field
@@ -768,7 +918,7 @@ func provedAtCallSites(c *eng.Ctx, t *eng.Taint, fn *ssa.Function, in ssa.Instru
 // validatedByCaller: every module call site of the per-op handler h is dominated by the success edge of a validator — a
 // module function applied to the same request value that compares the given sub-message field with nil and returns an
 // error. Returns a description, or "" when not established.
-func validatedByCaller(c *eng.Ctx, h *ssa.Function, field string) string {
+func validatedByCaller(c *eng.Ctx, h *ssa.Function, field, nested string) string {
 	obj, _ := h.Object().(*types.Func)
 	if obj == nil {
 		return ""
@@ -794,7 +944,7 @@ func validatedByCaller(c *eng.Ctx, h *ssa.Function, field string) string {
 			if v == nil || !c.P.IsModuleFunc(v) || v == h || len(vc.Call.Args) == 0 || vc.Call.Args[len(vc.Call.Args)-1] != req {
 				return
 			}
-			if !comparesFieldWithNil(v, field) {
+			if !comparesFieldWithNil(v, field, nested) {
 				return
 			}
 			okEdge := eng.CmpEdges(s.Fn, eng.Same(vc), eng.NilConst, eng.EQ)
@@ -807,11 +957,14 @@ func validatedByCaller(c *eng.Ctx, h *ssa.Function, field string) string {
 			return ""
 		}
 	}
+	if nested != "" {
+		field += "." + nested
+	}
 	return "every call of this handler is behind the success edge of " + validator + ", which refuses a request whose " + field + " is nil"
 }
 
 // comparesFieldWithNil: v compares the given field of its last parameter with nil and has an error return.
-func comparesFieldWithNil(v *ssa.Function, field string) bool {
+func comparesFieldWithNil(v *ssa.Function, field, nested string) bool {
 	if len(v.Params) == 0 {
 		return false
 	}
@@ -819,11 +972,32 @@ func comparesFieldWithNil(v *ssa.Function, field string) bool {
 	cmp := false
 	eng.Instrs(v, func(in ssa.Instruction) {
 		bo, ok := in.(*ssa.BinOp)
-		if !ok || (bo.Op != token.EQL && bo.Op != token.NEQ) || !eng.NilConst(bo.Y) {
+		if !ok || (bo.Op != token.EQL && bo.Op != token.NEQ) {
 			return
 		}
-		f, b := eng.FieldRead(bo.X)
-		if f != nil && f.Name() == field && eng.Strip(b) == prm {
+		x, y := bo.X, bo.Y
+		if eng.NilConst(x) {
+			x, y = y, x
+		}
+		if !eng.NilConst(y) {
+			return
+		}
+		f, b := eng.FieldRead(x)
+		if f == nil {
+			return
+		}
+		if nested == "" {
+			if f.Name() == field && eng.Strip(b) == prm {
+				cmp = true
+			}
+			return
+		}
+		// req.<field>.<nested> compared with nil
+		if f.Name() != nested {
+			return
+		}
+		f2, b2 := eng.FieldRead(eng.Strip(b))
+		if f2 != nil && f2.Name() == field && eng.Strip(b2) == prm {
 			cmp = true
 		}
 	})
@@ -838,4 +1012,117 @@ func comparesFieldWithNil(v *ssa.Function, field string) bool {
 		}
 	}
 	return false
+}
+
+// natsPanicsAllowed: the panics a NATS callback (or a function that marshals an ack for a received message) may contain,
+// keyed by function and by the call whose error the panic reports. Each is a failure that the sender of a message cannot
+// bring about; everything else in these functions that panics can be triggered from the network.
+var natsPanicsAllowed = map[string]string{
+	"server.(*partition).handleLeaderOffsetRequest|server/protocol.MarshalLeaderEpochOffsetResponse": "the response holds one integer: marshalling cannot fail",
+	"server.(*Server).handlePropagatedRequest|server/protocol.MarshalPropagatedResponse":             "the response holds the op and an error text produced by this server from strings protobuf already validated",
+	"server.(*partition).handleReplicationResponse|server/commitlog.CommitLog.AppendMessageSet":      "a storage failure on the follower; a malformed message set is told apart first (R14.6)",
+	"server.(*Server).handleServerInfoRequest|server/protocol.MarshalServerInfoResponse":             "the response holds this server's own id, host and port",
+	"server.(*Server).handlePartitionStatusRequest|server/protocol.MarshalPartitionStatusResponse":   "the response holds two booleans",
+	"server.(*Server).newClusterJoinRequestHandler$1|server/protocol.MarshalRaftJoinResponse":        "the response holds an error text produced by this server; the node id in it was validated by protobuf when the request was decoded",
+}
+
+// rulePanicsOnMessagePath (R14.7): every panic in a function that takes a *nats.Msg, or that marshals an Ack (whose strings
+// — message subject, ack inbox, correlation id — are chosen by whoever sent the message), is one of the listed ones.
+func rulePanicsOnMessagePath(c *eng.Ctx) {
+	p := c.P
+	inScope := func(fn *ssa.Function) bool {
+		for _, prm := range fn.Params {
+			if pt, ok := prm.Type().(*types.Pointer); ok {
+				if nt, ok := pt.Elem().(*types.Named); ok && nt.Obj().Name() == "Msg" && nt.Obj().Pkg() != nil && strings.HasSuffix(nt.Obj().Pkg().Path(), "nats-io/nats.go") {
+					return true
+				}
+			}
+		}
+		return len(eng.CallsIn(fn, "server/protocol.MarshalAck")) > 0
+	}
+	n := 0
+	for _, fn := range p.Funcs {
+		if fn.Pkg == nil || ir.Short(fn.Pkg.Pkg.Path()) != "server" || !inScope(fn) {
+			continue
+		}
+		eng.Instrs(fn, func(in ssa.Instruction) {
+			pn, ok := in.(*ssa.Panic)
+			if !ok {
+				return
+			}
+			n++
+			cause := panicCause(pn.X, 0)
+			key := ir.FuncKey(fn) + "|" + cause
+			construct := "panic in " + ir.FuncKey(fn)
+			if cause != "" {
+				construct += " on failure of " + cause
+			}
+			why, ok := natsPanicsAllowed[key]
+			c.Check(ok, construct, c.Pos(pn), "listed: "+why, "a message from the network can bring this panic about (the condition depends on what was received — a replica id, a subject, an inbox — not on a fault of this server): one NATS message stops the process")
+		})
+	}
+	c.Check(n >= 3, "panics on the message path found", "", "the listed panics are present", "fewer panics on the message path than listed: the table is stale")
+}
+
+// panicCause names the call whose error a panic reports ("" when the panic value is not an error taken from a call).
+func panicCause(v ssa.Value, depth int) string {
+	if depth > 4 {
+		return ""
+	}
+	switch x := v.(type) {
+	case *ssa.MakeInterface:
+		return panicCause(x.X, depth+1)
+	case *ssa.ChangeInterface:
+		return panicCause(x.X, depth+1)
+	case *ssa.Extract:
+		if call, ok := x.Tuple.(*ssa.Call); ok {
+			return eng.CalleeRef(&call.Call)
+		}
+	case *ssa.Call:
+		ref := eng.CalleeRef(&x.Call)
+		if ref == "fmt.Errorf" || ref == "fmt.Sprintf" || strings.HasPrefix(ref, "github.com/pkg/errors.") {
+			for _, a := range x.Call.Args {
+				for _, e := range append(variadicElems(a), a) {
+					if types.Identical(e.Type(), types.Universe.Lookup("error").Type()) {
+						if s := panicCause(e, depth+1); s != "" {
+							return s
+						}
+					}
+					if mi, ok := e.(*ssa.MakeInterface); ok && types.Identical(mi.X.Type(), types.Universe.Lookup("error").Type()) {
+						if s := panicCause(mi.X, depth+1); s != "" {
+							return s
+						}
+					}
+					if ci, ok := e.(*ssa.ChangeInterface); ok && types.Identical(ci.X.Type(), types.Universe.Lookup("error").Type()) {
+						if s := panicCause(ci.X, depth+1); s != "" {
+							return s
+						}
+					}
+				}
+			}
+			return ""
+		}
+		if types.Identical(x.Type(), types.Universe.Lookup("error").Type()) {
+			return ref
+		}
+	case *ssa.Phi:
+		for _, e := range x.Edges {
+			if s := panicCause(e, depth+1); s != "" {
+				return s
+			}
+		}
+	case *ssa.UnOp:
+		if x.Op == token.MUL {
+			if al, ok := x.X.(*ssa.Alloc); ok && al.Referrers() != nil {
+				for _, r := range *al.Referrers() {
+					if st, ok := r.(*ssa.Store); ok && st.Addr == ssa.Value(al) {
+						if s := panicCause(st.Val, depth+1); s != "" {
+							return s
+						}
+					}
+				}
+			}
+		}
+	}
+	return ""
 }
